@@ -297,6 +297,14 @@ func (u *c07Univ) pattern(kind string, msgOf, altOf func(i int) []byte) ([]c07Pa
 			ps = append(ps, c07Part{i, i, msgOf(i)})
 		}
 	}
+	if strings.HasPrefix(kind, "k=") { // exactly k distinct genuine signers 1..k
+		k := 0
+		if _, err := fmt.Sscanf(kind, "k=%d", &k); err != nil || k < 0 || k > len(u.bases) {
+			return nil, false
+		}
+		honest(k)
+		return ps, true
+	}
 	switch kind {
 	case "valid":
 		honest(u.q)
@@ -727,6 +735,7 @@ type c07World struct {
 	lr        leaderrotation.LeaderRotation
 	fetchDown bool // peers do not answer block requests during the current stimulus
 	sendFails int
+	sent      []hotstuff.SyncInfo // sync infos handed to core.Sender during the current stimulus
 	u         *c07Univ
 	agg       bool
 	leader    int
@@ -778,13 +787,17 @@ func (s *c07Sender) fail() error {
 	}
 	return nil
 }
-func (s *c07Sender) NewView(hotstuff.ID, hotstuff.SyncInfo) error { return s.fail() }
+func (s *c07Sender) NewView(_ hotstuff.ID, si hotstuff.SyncInfo) error {
+	s.w.sent = append(s.w.sent, si) // what the replica passes on (kept for the current stimulus)
+	return s.fail()
+}
 func (s *c07Sender) Vote(hotstuff.ID, hotstuff.PartialCert) error { return s.fail() }
 
 // Timeout: what the replica broadcasts is public; certificates built later from "replica 1's signature"
 // use exactly these bytes (they are the ones its signature cache knows).
 func (s *c07Sender) Timeout(m hotstuff.TimeoutMsg) {
 	u := s.w.u
+	s.w.sent = append(s.w.sent, m.SyncInfo)
 	if m.ViewSignature != nil {
 		u.sigMemo[fmt.Sprintf("%d|%s", 1, m.View.ToBytes())] = c07Raw(m.ViewSignature)
 	}
@@ -1166,7 +1179,7 @@ func (w *c07World) drain() {
 // apply delivers one stimulus and drains the event loop; returns a panic value if the code under test panicked.
 func (w *c07World) apply(s c07Stim) (pan any) {
 	u := w.u
-	w.actions, w.vsis, w.okKinds, w.vcs, w.commits = nil, nil, nil, nil, nil
+	w.actions, w.vsis, w.okKinds, w.vcs, w.commits, w.sent = nil, nil, nil, nil, nil, nil
 	w.direct = false
 	w.fetchDown = s.Down
 	defer func() {
